@@ -100,7 +100,8 @@ ReTable == << Lit("a"),                              \* 1  a
               Cat(Dot, Lit("b")),                    \* 5  .b
               Cat(Lit("a"), Opt(Lit("b"))),          \* 6  ab?
               Cat(Alt(Lit("a"), Lit("x")), Lit("b")),\* 7  (?:a|x)b
-              Cat(Lit("b"), Eol) >>                  \* 8  b$
+              Cat(Lit("b"), Eol),                    \* 8  b$
+              Alt(Cat(Bol, Lit("a")), Lit("b")) >>   \* 9  ^a|b   (what polars str_matches makes of a|b)
 Re(v) == ReTable[v[2]]
 rv(k) == <<"re", k>>
 
